@@ -332,7 +332,8 @@ impl<'a> Model<'a> {
         // `optional`: definitions that a module on the import chain star-imports but shadows with the
         // excluded (requesting) fixture itself.  pytest does not see them at that level; the statement
         // ("next definition outward in the shadowing order") can be read either way, so they are
-        // accepted in addition to whatever the walk finds further out.
+        // accepted in addition to whatever the walk finds further out.  (Not the requesting fixture's own module's other
+        // definitions of the name: an earlier one there is overwritten, or was already found at the same-file step.)
         let mut optional: BTreeSet<usize> = BTreeSet::new();
         let mut dir = Some(dir_of(file));
         while let Some(d) = dir {
@@ -348,7 +349,7 @@ impl<'a> Model<'a> {
                     self.reachable_union(&c, &mut BTreeSet::new(), &mut u, true);
                     if let Some(s) = u.get(name) {
                         if s.contains(&ex) {
-                            optional.extend(s.iter().copied().filter(|i| *i != ex));
+                            optional.extend(s.iter().copied().filter(|i| *i != ex && self.defs[*i].file != self.defs[ex].file));
                         }
                     }
                 }
@@ -371,7 +372,7 @@ impl<'a> Model<'a> {
                     self.reachable_union(&c, &mut BTreeSet::new(), &mut u, true);
                     if let Some(s) = u.get(name) {
                         if s.contains(&ex) {
-                            optional.extend(s.iter().copied().filter(|i| *i != ex));
+                            optional.extend(s.iter().copied().filter(|i| *i != ex && self.defs[*i].file != self.defs[ex].file));
                         }
                     }
                 }
